@@ -100,7 +100,7 @@ def m2(cx):
         if tag in HANDLES:
             continue
         fn = cx.method(im, 'complete')
-        g = cx.graph(fn['key'])
+        g = cx.graph(fn['key'], forward=True)
         label = cx.label(fn)
         n += 1
         flags = set()
@@ -132,9 +132,12 @@ def m2(cx):
                     return ('BAD', wrote, sent, empty)
                 sent = True
             return (phase, wrote, sent, empty)
-        reached, pred = explore(g, (None, False, False, False), step)
+        from ..core import explore_r
+        reached, pred = explore_r(g, (None, False, False, False), step)
         bad = None
         for nid, st in ret_states(g, reached):
+            if getattr(g, 'opt_frames', None):
+                st = st[0]
             phase, wrote, sent, empty = st
             if phase == 'BAD':
                 bad = (nid, st, 'sends something other than complete on the taken slot')
@@ -147,7 +150,7 @@ def m2(cx):
         if not flags:
             res.append(Finding(ID, 'M2', label, False, 'no first-completion flag is written in complete()', fn['span']))
         elif bad:
-            res.append(Finding(ID, 'M2', label, False, 'two-phase completion broken: ' + bad[2], fn['span'], witness(g, pred, (bad[0], bad[1]), interesting_default)))
+            res.append(Finding(ID, 'M2', label, False, 'two-phase completion broken: ' + bad[2], fn['span'], []))
         else:
             res.append(Finding(ID, 'M2', label, True, 'first completion sets %s, second completes through take()' % sorted(flags), fn['span']))
     if not cx.control and n < 6:
